@@ -9,28 +9,25 @@ rescore query on it: `noMatch` / `rejected` (score tree returned `None`, i.e. `m
 sorted, the rest appended untouched.
 
 Proved for every hit list, window, mode, comparator (strict order):
+* `rescore_eq_rescoreSpec` — **the code's rescoring step is the statement's** (full statement since
+  /repo 87dca91: the leading `window − |removed|` hits are sorted, i.e. exactly the surviving
+  window hits);
+* `rescore_outside_unchanged` — the hits behind the original window follow the surviving window
+  hits: same hits, same scores, same order, behind every window hit;
 * `rescore_scores` — every output hit is either an untouched hit from behind the window or comes
   from a window hit by the documented combination (`combine`), unmatched hits keeping their score;
 * `rescore_min_score_drops` — exactly the rejected window hits disappear;
-* `rescore_window_sorted` — the first `w` output hits are in key order;
-* `rescoreSpec_outside_unchanged` — in the spec the hits behind the window follow unchanged;
-* `rescore_eq_spec_partial` — the code equals the spec **when no window hit is rejected**;
+* `rescore_window_sorted` — the surviving window hits come first, in key order;
 * `mech_rescore_eq_spec_partial` — for the whole request (`search` vs `Spec.search`): same page,
   cursor and total when no window hit is rejected (sort not the per-segment fast path, `explain`
-  off, no collapse, `window_size ≤ MAX_CANDIDATE_SIZE`).  Since /repo 089be57 the fetch depth is
-  `max(limit, candidate_size, window_size) + 1`, so "the window fits into the fetched hits" is no
-  longer a hypothesis but a consequence of the definition.
+  off, no collapse, `window_size ≤ MAX_CANDIDATE_SIZE`).  The remaining hypothesis excludes the
+  one open defect: `min_score` removals are not refilled from beyond the fetched hits
+  (`page_short_after_drops_witness`).
 
-Full statement (not a theorem of the code):
-  `∀ hits w, rescore o lt mode explain w hits = rescoreSpec o lt mode explain w hits`
-negative witness `rescore_slide_witness`: after a rejection the code sorts the first `w` of what
-is left, which pulls a never-rescored hit in front of a rescored one.
-
-The other gap is before `rescore_hits`.  Repaired (/repo 089be57): only
-`max(limit, candidate_size)+1` hits were fetched, so a larger window was cut —
-`legacy_window_beyond_fetched_witness` (about `legacySearch`) documents it, `window_fetched_repaired`
-shows the same input on the current model.  Still open: `min_score` removals are not refilled
-from beyond the fetched hits: `page_short_after_drops_witness`.
+Repaired defects, kept as kernel-checked documentation: `legacyRescore` (before 87dca91) equals
+the statement only without rejections (`legacy_rescore_eq_spec_partial`,
+`legacy_rescore_slide_witness`, next to `rescore_slide_repaired`); `legacySearch` (fetch depth
+before 089be57): `legacy_window_beyond_fetched_witness` next to `window_fetched_repaired`.
 -/
 namespace SL.Post
 variable {S : Type}
@@ -71,19 +68,13 @@ theorem take_disjoint_drop {α : Type} {l : List α} (hn : l.Nodup) (w : Nat) {x
 def keptOf (o : ScoreOps S) (mode : Mode) (explain : Bool) (w : Nat) (hits : List (Hit S)) : List (Hit S) :=
   (hits.take w).filterMap (applyResc o mode explain) ++ hits.drop w
 
+/-- the code's rescoring step is the statement's (`Lemmas/Post.rescore_eq_spec`), written with
+`keptOf`: the surviving window hits sorted, then the rest -/
 theorem rescore_eq (o : ScoreOps S) (lt : Hit S → Hit S → Bool) (mode : Mode) (explain : Bool) (w : Nat)
     (hits : List (Hit S)) :
     rescore o lt mode explain w hits =
-      isort lt ((keptOf o mode explain w hits).take w) ++ (keptOf o mode explain w hits).drop w := by
-  unfold rescore keptOf
-  split
-  · rename_i h0
-    rcases Nat.eq_zero_or_pos w with hw | hw
-    · subst hw; simp [isort]
-    · have : hits.length = 0 := by omega
-      have : hits = [] := List.eq_nil_of_length_eq_zero this
-      subst this; simp [isort]
-  · rfl
+      isort lt ((hits.take w).filterMap (applyResc o mode explain)) ++ hits.drop w := by
+  rw [rescore_eq_spec]; rfl
 
 /-- what `applyResc` does to one hit -/
 theorem applyResc_spec (o : ScoreOps S) (mode : Mode) (explain : Bool) {h h' : Hit S}
@@ -109,7 +100,7 @@ theorem rescore_perm (o : ScoreOps S) (lt : Hit S → Hit S → Bool) (mode : Mo
     (hits : List (Hit S)) :
     (rescore o lt mode explain w hits).Perm (keptOf o mode explain w hits) := by
   rw [rescore_eq]
-  exact ((isort_perm_self _).append_right _).trans (List.take_append_drop _ _ ▸ List.Perm.refl _)
+  exact (isort_perm_self _).append_right _
 
 /-- **scores**: every output hit is an untouched hit from behind the window, or comes from a
 window hit: unchanged if the rescore query does not match it, otherwise with the combined score
@@ -170,15 +161,15 @@ theorem rescore_min_score_drops (o : ScoreOps S) (lt : Hit S → Hit S → Bool)
     unfold keptOf
     exact List.mem_append.mpr (Or.inr hh)
 
-/-- **window sorted**: the first `w` hits of the output are in key order (by the new scores,
-`lt` reads the current score of each hit) -/
+/-- **window sorted**: the surviving window hits come first and are in key order (by the new
+scores, `lt` reads the current score of each hit) -/
 theorem rescore_window_sorted {lt : Hit S → Hit S → Bool} (hso : StrictOrd lt) (o : ScoreOps S) (mode : Mode)
     (explain : Bool) (w : Nat) (hits : List (Hit S)) :
-    Sorted lt ((rescore o lt mode explain w hits).take w) := by
+    Sorted lt ((rescore o lt mode explain w hits).take
+      ((hits.take w).filterMap (applyResc o mode explain)).length) := by
   rw [rescore_eq]
-  have hl : (isort lt ((keptOf o mode explain w hits).take w)).length =
-      ((keptOf o mode explain w hits).take w).length := length_isort _
-  rw [(take_drop_of_length _ _ w hl).1]
+  have hl := length_isort (lt := lt) ((hits.take w).filterMap (applyResc o mode explain))
+  rw [List.take_left' hl]
   exact isort_sorted hso _
 
 /-- **outside the window** (spec): behind the surviving window hits the remaining hits follow
@@ -193,12 +184,49 @@ theorem rescoreSpec_outside_unchanged {lt : Hit S → Hit S → Bool} (hso : Str
   have hl := length_isort (lt := lt) ((hits.take w).filterMap (applyResc o mode explain))
   exact ⟨List.drop_left' hl, by rw [List.take_left' hl]; exact isort_sorted hso _⟩
 
-/-- the code does what the statement says **when no hit of the window is rejected**
-(`…_partial`: the excluded case is `rescore_slide_witness`) -/
-theorem rescore_eq_spec_partial (o : ScoreOps S) (lt : Hit S → Hit S → Bool) (mode : Mode) (explain : Bool)
-    (w : Nat) (hits : List (Hit S)) (hnr : ∀ h ∈ hits.take w, h.resc ≠ .rejected) :
-    rescore o lt mode explain w hits = rescoreSpec o lt mode explain w hits := by
+/-- **the code does what the statement says**, for every hit list, window, mode and outcome of
+the rescore query (full statement since /repo 87dca91; before, it needed "no window hit is
+rejected": `legacy_rescore_eq_spec_partial`, `legacy_rescore_slide_witness`) -/
+theorem rescore_eq_rescoreSpec (o : ScoreOps S) (lt : Hit S → Hit S → Bool) (mode : Mode) (explain : Bool)
+    (w : Nat) (hits : List (Hit S)) :
+    rescore o lt mode explain w hits = rescoreSpec o lt mode explain w hits :=
+  rescore_eq_spec o lt mode explain w hits
+
+/-- **outside the window** (code): the output is the surviving window hits followed by exactly
+the hits behind the original window — same hits, same scores, same order, and *behind every
+window hit* -/
+theorem rescore_outside_unchanged (o : ScoreOps S) (lt : Hit S → Hit S → Bool) (mode : Mode)
+    (explain : Bool) (w : Nat) (hits : List (Hit S)) :
+    (rescore o lt mode explain w hits).drop
+        ((hits.take w).filterMap (applyResc o mode explain)).length = hits.drop w ∧
+    ((rescore o lt mode explain w hits).take
+        ((hits.take w).filterMap (applyResc o mode explain)).length).Perm
+      ((hits.take w).filterMap (applyResc o mode explain)) := by
   rw [rescore_eq]
+  have hl := length_isort (lt := lt) ((hits.take w).filterMap (applyResc o mode explain))
+  exact ⟨List.drop_left' hl, by rw [List.take_left' hl]; exact isort_perm_self _⟩
+
+/-! ### the rescoring step before /repo 87dca91 -/
+
+theorem legacyRescore_eq (o : ScoreOps S) (lt : Hit S → Hit S → Bool) (mode : Mode) (explain : Bool) (w : Nat)
+    (hits : List (Hit S)) :
+    legacyRescore o lt mode explain w hits =
+      isort lt ((keptOf o mode explain w hits).take w) ++ (keptOf o mode explain w hits).drop w := by
+  unfold legacyRescore keptOf
+  split
+  · rename_i h0
+    rcases Nat.eq_zero_or_pos w with hw | hw
+    · subst hw; simp [isort]
+    · have : hits.length = 0 := by omega
+      have : hits = [] := List.eq_nil_of_length_eq_zero this
+      subst this; simp [isort]
+  · rfl
+
+/-- the old code equalled the statement only **when no hit of the window was rejected** -/
+theorem legacy_rescore_eq_spec_partial (o : ScoreOps S) (lt : Hit S → Hit S → Bool) (mode : Mode) (explain : Bool)
+    (w : Nat) (hits : List (Hit S)) (hnr : ∀ h ∈ hits.take w, h.resc ≠ .rejected) :
+    legacyRescore o lt mode explain w hits = rescoreSpec o lt mode explain w hits := by
+  rw [legacyRescore_eq]
   unfold rescoreSpec keptOf
   have hl : ((hits.take w).filterMap (applyResc o mode explain)).length = (hits.take w).length := by
     apply length_filterMap_of_isSome
@@ -208,21 +236,6 @@ theorem rescore_eq_spec_partial (o : ScoreOps S) (lt : Hit S → Hit S → Bool)
     | some _ => rfl
   obtain ⟨h1, h2⟩ := take_drop_of_length _ hits w hl
   rw [h1, h2]
-
-/-- hence, without rejections, the hits behind the window keep score and order in the code too -/
-theorem rescore_outside_unchanged_partial (o : ScoreOps S) (lt : Hit S → Hit S → Bool) (mode : Mode)
-    (explain : Bool) (w : Nat) (hits : List (Hit S)) (hnr : ∀ h ∈ hits.take w, h.resc ≠ .rejected) :
-    (rescore o lt mode explain w hits).drop (hits.take w).length = hits.drop w := by
-  rw [rescore_eq_spec_partial o lt mode explain w hits hnr]
-  unfold rescoreSpec
-  have hl : (isort lt ((hits.take w).filterMap (applyResc o mode explain))).length = (hits.take w).length := by
-    rw [length_isort]
-    apply length_filterMap_of_isSome
-    intro h hh
-    cases e : applyResc o mode explain h with
-    | none => exact absurd ((applyResc_none o mode explain).mp e) (hnr h hh)
-    | some _ => rfl
-  exact List.drop_left' hl
 
 /-! ### the whole request: fetch depth, window, page -/
 
@@ -280,7 +293,7 @@ theorem mech_rescore_eq_spec_partial (o : ScoreOps S) (r : Req S) (matched : Lis
   have hmech : rescore o (klt o r.plan) rr.mode false rr.window (L.take k) =
       isort (klt o r.plan) ((L.take rr.window).filterMap (applyResc o rr.mode false)) ++
         (L.drop rr.window).take (k - rr.window) := by
-    rw [rescore_eq_spec_partial o _ _ _ _ _ (by rw [htt]; exact hnr)]
+    rw [rescore_eq_spec]
     unfold rescoreSpec
     rw [htt, List.drop_take]
   generalize hA : isort (klt o r.plan) ((L.take rr.window).filterMap (applyResc o rr.mode false)) = A at hspec hmech
@@ -332,13 +345,19 @@ example :
 
 example : ∀ h ∈ [mk 0 5 (.val 1), mk 1 4 .noMatch].take 2, h.resc ≠ Resc.rejected := by decide
 
-/-- **negative witness** for `rescore = rescoreSpec`: window 2, the second hit is rejected, the
-first is rescored down to 1; the code then sorts the first two of what is left, so the third
-hit (score 3, never rescored) overtakes the rescored one -/
-theorem rescore_slide_witness :
-    (rescore intOps (klt intOps byScore) .total false 2
+/-- **legacy negative witness** (before /repo 87dca91) for `legacyRescore = rescoreSpec`: window 2,
+the second hit is rejected, the first is rescored down to 1; the old code then sorted the first
+two of what was left, so the third hit (score 3, never rescored) overtook the rescored one -/
+theorem legacy_rescore_slide_witness :
+    (legacyRescore intOps (klt intOps byScore) .total false 2
         [mk 0 5 (.val (-4)), mk 1 4 .rejected, mk 2 3 .noMatch, mk 3 2 .noMatch]).map (·.doc) = [2, 0, 3] ∧
     (rescoreSpec intOps (klt intOps byScore) .total false 2
+        [mk 0 5 (.val (-4)), mk 1 4 .rejected, mk 2 3 .noMatch, mk 3 2 .noMatch]).map (·.doc) = [0, 2, 3] := by
+  decide
+
+/-- the same input on the current model: the never-rescored hits stay behind the window -/
+theorem rescore_slide_repaired :
+    (rescore intOps (klt intOps byScore) .total false 2
         [mk 0 5 (.val (-4)), mk 1 4 .rejected, mk 2 3 .noMatch, mk 3 2 .noMatch]).map (·.doc) = [0, 2, 3] := by
   decide
 
